@@ -1,19 +1,45 @@
 /-
   C01 — Result models accept and preserve every conformant response.
 
-  Model: Model/ResultTypes.lean (generator), Spec/Pyd.lean (pydantic), Spec/Exec.lean (executor).
-  This file holds statements and final proofs; lemmas are in Proofs/ResultLeaf.lean.
+  Model: Model/ResultTypes.lean (generator), Model/Marks.lean (document as sent), Spec/Pyd.lean (pydantic),
+  Spec/Exec.lean (executor), Spec/Validate.lean (validity); the Boolean pipeline statement `claimB` is in Model/Claim01.lean.
+  This file holds statements and final proofs; lemmas are in Proofs/ResultLeaf.lean, Proofs/C01Plain*.lean,
+  Proofs/C01Abs*.lean, Proofs/C01Mix*.lean, Proofs/C01Bridge*.lean.
 
-  Tiers (DESIGN.md §3 C01):
-    * `ann_accepts_conformant`  (proved, unbounded): leaf-based field types, every wrapper nesting.
-    * class level / selections: see the bottom of this file for what is stated, what is proved and
-      what is still covered by correspondence + oracle only.
+  WHAT IS PROVED (kernel-checked, every input of the class, no bound on depth / width / list lengths):
+    * `ann_accepts_conformant`: leaf-based field types, every wrapper nesting.
+    * `object_selection_roundtrip` (class level) and `C01_partial_plain` (pipeline, `claimB`): PLAIN documents — fields only
+      (leaf- or object-typed, aliases, `@skip/@include`), no fragments, no `__typename`; region = `PlainInput`.
+    * `abstract_position_roundtrip` (class level), `interface_position_partition`, `union_position_partition`, and
+      `C01_partial_abstract` (pipeline, `claimB`): documents WITHOUT NAMED FRAGMENTS whose fields may be of object, INTERFACE or
+      UNION type, with typed inline fragments (content = fields) and `__typename`; one class per variant, typename literals that
+      partition the possible types, automatic `__typename` marks threaded over the operations; region = `AbsInput`.
+    * `mixin_fragments_roundtrip` (class level) and `C01_partial_mixin` (pipeline, `claimB`): plain documents WITH NAMED
+      FRAGMENTS USED AS MIXINS (a fragment on exactly the object type of the selection set, no inline fragment inside):
+      inheritance from the fragment classes, fragments module, to any nesting depth; region = `MixInput`.
+    * `C01_full_false`, `F3…F9_fails_in_model`: the property is false on the pinned tree inside the finding regions.
+  WHAT IS STATED BUT NOT PROVED (`C01_partial_statement`; covered by correspondence + oracle only):
+    * named fragments that the generator UNPACKS (a fragment on another type than the position: on an interface at an object
+      position, on an object at an abstract position, a fragment containing inline fragments), and mixins COMBINED with
+      abstract positions or inline fragments in one document (the two tiers are separate regions);
+    * inside the tiers, what their predicates exclude: the same response key reached twice in one class
+      (`node { id ... on User { id } }`, `{ ...F id }` with `id` in `F`), `__typename` inside an inline fragment, nested inline
+      fragments, configured custom scalars, `@mixin`, covariant field types in implementing objects;
+    * inputs outside the explicit decidable side conditions `schemaOK`, `NoShadowedImport`, `NoCondTypename` — each of these is
+      a DEFECT REGION found while proving (see the comments at their definitions in Proofs/C01Bridge*.lean), not yet a trigger
+      of Model/Triggers01.lean; until it is, `C01_partial_statement` is false as stated (witness reported to the owner).
 -/
 import AriadneModel.Proofs.ResultLeaf
 import AriadneModel.Model.Triggers01
 import AriadneModel.Model.Marks
 import AriadneModel.Spec.Validate
 import AriadneModel.Proofs.C01Plain
+import AriadneModel.Model.Claim01
+import AriadneModel.Proofs.C01BridgePlain
+import AriadneModel.Proofs.C01Abs
+import AriadneModel.Proofs.C01BridgeAbs
+import AriadneModel.Proofs.C01AbsPartition
+import AriadneModel.Proofs.C01BridgeMix
 
 set_option linter.unusedVariables false
 
@@ -48,50 +74,24 @@ with the answer. -/
 
 open Ariadne.Triggers01
 
-/-- pydantic environment of operation number `k`: its own classes plus every generated fragment class -/
-def pydEnvOf (inp : Input) (r : Run) (out : ModuleOut) : Pyd.Env :=
-  -- the fragments module holds the classes of every fragment that no OPERATION unpacked (package.py)
-  let unpacked := (okOuts r.ops).foldl (fun acc o => Util.setUnion acc o.st.unpacked) []
-  let fragClasses := r.frags.foldl (fun acc (n, x) => match x with
-    | .ok o => if unpacked.contains n then acc else acc ++ o.classes
-    | .error _ => acc) []
-  { classes := out.classes ++ fragClasses,
-    enums := (inp.env.schema.types.filter (·.kind == .enum)).map fun t => (t.name, t.values) }
+/-! `pydEnvOf`, `execFuel`, `claimB`, `ValidInput` are defined in Model/Claim01.lean (same namespace):
+    `claimB inp k j` = generation of operation `k` succeeded and, IF `j` is an answer a conformant server can give
+    for the document as SENT (`Exec.respOK` on `Marks.applyOp`), THEN the root model accepts it and dumps it back
+    (`J.eqv`, i.e. up to member order).  `ValidInput inp` = `Validate.validDoc … = true`.
 
-def execFuel : Nat := 1000
+    A response is a decoded JSON object (a Python `dict`): its objects have no repeated keys, hereditarily
+    (`C01Plain.nodupKeys`).  This is part of what "a response" means and therefore a hypothesis of every statement
+    below; `old_literal_statement_false` records why it cannot be dropped in this model. -/
 
-/-- C01 for one operation of one input and one payload, as a Boolean:
-    generation succeeded and, IF `j` is an answer a conformant server can give for the sent document,
-    THEN the root model accepts it and dumps it back (up to member order). -/
-def claimB (inp : Input) (k : Nat) (j : J) : Bool :=
-  let r := run inp
-  match r.ops[k]?, inp.ops[k]? with
-  | some (.ok out), some o =>
-    match out.classes.head?, Validate.rootOf inp.env.schema o with
-    | some root, some rt =>
-      let marks := marksAfter (r.ops.take (k + 1))
-      let sentFrags := inp.env.frags.map (Marks.applyFrag marks)
-      let sent := Marks.applyOp marks o
-      !(Exec.respOK inp.env.schema sentFrags execFuel rt sent.sel j)
-      || (match Pyd.validate (pydEnvOf inp r out) execFuel (.cls root.name) j with
-          | .ok v => J.eqv (Pyd.dump v) j
-          | .error _ => false)
-    | _, _ => false
-  | some (.error _), some _ => false        -- generation refused / crashed on a valid operation
-  | _, _ => true                            -- no such operation
-
-def ValidInput (inp : Input) : Prop :=
-  Validate.validDoc inp.env.schema inp.env.frags inp.ops execFuel = true
-
-instance (inp : Input) : Decidable (ValidInput inp) := by unfold ValidInput; infer_instance
+open Ariadne.C01Plain (nodupKeys)
 
 /-- C01 at full strength (acceptance + serialising back; the attribute-exposure and
     class-per-runtime-type clauses are consequences checked by the oracle). -/
-def C01_full : Prop := ∀ (inp : Input) (k : Nat) (j : J), ValidInput inp → claimB inp k j = true
+def C01_full : Prop := ∀ (inp : Input) (k : Nat) (j : J), ValidInput inp → nodupKeys j = true → claimB inp k j = true
 
 /-- C01 outside the finding regions (`Supported_01` = no trigger predicate of Model/Triggers01.lean holds). -/
 def C01_partial_statement : Prop :=
-  ∀ (inp : Input) (k : Nat) (j : J), ValidInput inp → Supported_01 inp → claimB inp k j = true
+  ∀ (inp : Input) (k : Nat) (j : J), ValidInput inp → Supported_01 inp → nodupKeys j = true → claimB inp k j = true
 
 /-! Witness of finding C01-F2: `query Q { me { id } me { friends { id } } }` -/
 
@@ -118,13 +118,33 @@ theorem witness_in_region : trigDupCompositeKey wInp = true := by decide +kernel
 theorem witness_conformant :
     Exec.respOK wSchema [] execFuel "Query" wOp.sel wResp = true := by decide +kernel
 theorem witness_fails : claimB wInp 0 wResp = false := by decide +kernel
+theorem witness_nodup : nodupKeys wResp = true := by decide +kernel
 
 /-- The property is false on the pinned tree (finding C01-F2; replayed on the real code by
     corpus/C01/F2-duplicate-composite-key.json on every run). -/
 theorem C01_full_false : ¬ C01_full := by
   intro h
-  have := h wInp 0 wResp witness_valid
+  have := h wInp 0 wResp witness_valid witness_nodup
   rw [witness_fails] at this
+  exact absurd this (by decide)
+
+
+def dupInp : Input :=
+  { env := { schema := wSchema, frags := [] },
+    ops := [{ kind := .query, name := some "Q", sid := 1, sel := [.field none "me" [] 2 [.field none "id" [] 0 []]] }] }
+def dupResp : J := .obj [("me", .obj [("id", .str "1"), ("id", .str "2")])]
+
+/-- MODELLING ARTEFACT, not a defect of the code: the statement WITHOUT `nodupKeys j` (as it read before) is false
+    already on `query Q { me { id } }`, because `J` association lists may repeat a key — `Exec.respOK` judges the first
+    binding, the dump has one member, `J.eqv` compares lengths.  A decoded response (a `dict`) cannot look like that. -/
+theorem old_literal_statement_false :
+    ¬ (∀ (inp : Input) (k : Nat) (j : J), ValidInput inp → Supported_01 inp → claimB inp k j = true) := by
+  intro h
+  have h1 : ValidInput dupInp := by decide +kernel
+  have h2 : Supported_01 dupInp := by decide +kernel
+  have h3 : claimB dupInp 0 dupResp = false := by decide +kernel
+  have := h dupInp 0 dupResp h1 h2
+  rw [h3] at this
   exact absurd this (by decide)
 
 
@@ -157,7 +177,7 @@ def w3 : Input := mkInp []
   ([fld "me" 2 [fld "id", .inline (some "User") [inc] 3 [fld "friends" 4 [fld "id"]]]])
 def w3Resp : J := .obj [("me", .obj [("id", .str "1")])]
 theorem F3_in_region : trigDirOnFragment w3 = true := by decide +kernel
-theorem F3_fails_in_model : ValidInput w3 ∧ claimB w3 0 w3Resp = false := by decide +kernel
+theorem F3_fails_in_model : ValidInput w3 ∧ nodupKeys w3Resp = true ∧ claimB w3 0 w3Resp = false := by decide +kernel
 
 /-- F4: `query Q { me { ...UF } }  fragment UF on User { id pet { id } }` — the fragment is inherited, its text is sent
     without `__typename`, its class demands it -/
@@ -165,14 +185,14 @@ def w4 : Input := mkInp [mkF "UF" "User" 5 [fld "id", fld "pet" 6 [fld "id"]]]
   ([fld "me" 2 [.spread "UF" []]])
 def w4Resp : J := .obj [("me", .obj [("id", .str "1"), ("pet", .obj [("id", .str "2")])])]
 theorem F4_in_region : trigMixinAbstractField w4 (run w4) = true := by decide +kernel
-theorem F4_fails_in_model : ValidInput w4 ∧ claimB w4 0 w4Resp = false := by decide +kernel
+theorem F4_fails_in_model : ValidInput w4 ∧ nodupKeys w4Resp = true ∧ claimB w4 0 w4Resp = false := by decide +kernel
 
 /-- F5: `query Q { node { ... on Named { name } } }` — the inline fragment on the other interface is ignored -/
 def w5 : Input := mkInp []
   ([fld "node" 2 [.inline (some "Named") [] 3 [fld "name"]]])
 def w5Resp : J := .obj [("node", .obj [("__typename", .str "User"), ("name", .str "n")])]
 theorem F5_in_region : trigDroppedSelection w5.env.schema (run w5) = true := by decide +kernel
-theorem F5_fails_in_model : ValidInput w5 ∧ claimB w5 0 w5Resp = false := by decide +kernel
+theorem F5_fails_in_model : ValidInput w5 ∧ nodupKeys w5Resp = true ∧ claimB w5 0 w5Resp = false := by decide +kernel
 
 /-- F7: `query Q { me { ... { id } } }` — AttributeError in the generator -/
 def w7 : Input := mkInp []
@@ -186,7 +206,7 @@ def w9 : Input := mkInp [mkF "NF" "Node" 5 [fld "id"]]
   ([fld "node" 2 [.spread "NF" [], .inline (some "User") [] 3 [fld "name"]]])
 def w9Resp : J := .obj [("node", .obj [("__typename", .str "Post"), ("id", .str "7")])]
 theorem F9_in_region : trigMixinAndUnpacked (run w9) = true := by decide +kernel
-theorem F9_fails_in_model : ValidInput w9 ∧ claimB w9 0 w9Resp = false := by decide +kernel
+theorem F9_fails_in_model : ValidInput w9 ∧ nodupKeys w9Resp = true ∧ claimB w9 0 w9Resp = false := by decide +kernel
 
 /-! Non-vacuity of the partial statement: a supported input on which the claim holds for a non-trivial answer
     (interface position, inline fragments on two members, nullable list of non-null objects). -/
@@ -221,6 +241,146 @@ theorem object_selection_roundtrip (env : ResultTypes.Env) (cn tn : String) (sid
         ∀ vfuel, vneed env tn sel + 1 ≤ vfuel →
           ∃ v, Pyd.validate penv vfuel (.cls cn) j = .ok v ∧ J.eqv (Pyd.dump v) j = true) :=
   C01_plain env cn tn sid sel st h
+
+
+/-! ### The abstract-positions tier, proved (Proofs/C01Abs*.lean)
+
+Extends the plain tier by fields of INTERFACE and UNION type (any wrappers), typed inline fragments (content = fields) in
+every selection set, and `__typename` — nested to any depth, ONE induction over selections and variants.
+At every composite position the generator emits one class per VARIANT (`C01Abs.relatedOf`: the object type; the interface
+plus one class per inline-fragment type condition; every union member); an abstract position gets the automatic `__typename`
+unless it selects one (`C01Abs.needSids` = exactly the selection sets the generator marks); every answer `Exec.respOK` allows
+for the document AS SENT (`Marks.applySels` with those marks) is validated by the first variant whose `typename__` literal
+contains the runtime type, and dumped back.  Hypothesis: the decidable `C01Abs.AbsOK` (what it demands and why: header of
+Proofs/C01Abs.lean).  Non-vacuity: `C01Abs.axSel` (interface with two fragments, list of union, plain-in-abstract-in-plain). -/
+
+open Ariadne.C01Abs in
+theorem abstract_position_roundtrip (env : ResultTypes.Env) (cn tn : String) (sid : Nat) (sel : List Selection) (st : St)
+    (h : AbsOK env cn tn sid sel st = true) :
+    ∃ classes : List ClassDecl,
+      (∀ fuel, agfuel sel ≤ fuel →
+        ∃ st', parseTypeDefinition env fuel cn tn sid sel false [] [] st = .ok (classes, st') ∧
+          ∀ m, m ∈ st'.marks ↔ m ∈ sentMarks env cn tn sel st) ∧
+      classes.head?.map (·.name) = some cn ∧
+      (∀ (penv : Pyd.Env), C01Plain.PenvOK env penv classes →
+        ∀ (efuel : Nat), agfuel sel ≤ efuel →
+        ∀ (j : J), Exec.respOK env.schema [] efuel tn (Marks.applySels (sentMarks env cn tn sel st) sel) j = true →
+        nodupKeys j = true →
+        ∀ vfuel, avneed env cn tn sel + 4 ≤ vfuel →
+          ∃ v, Pyd.validate penv vfuel (.cls cn) j = .ok v ∧ J.eqv (Pyd.dump v) j = true) :=
+  C01_abs env cn tn sid sel st h
+
+/-- `abstract_position_discriminates`, part "the literals partition the possible types" — interface position `n` (classes
+    prefixed `C`) whose sub-selection has inline fragments on OBJECT types: a possible type `rt` is in the `typename__` literal
+    of the fragment class on `rt` and of no other fragment class, and it is in the literal of the base class ("the rest") iff no
+    inline fragment names it.  (That the answer of runtime type `rt` is validated by the first variant whose literal contains
+    `rt` is part of `abstract_position_roundtrip`: Proofs/C01AbsVal.lean `tagged_rt`.) -/
+theorem interface_position_partition (env : ResultTypes.Env) (C n : String) (sub : List Selection)
+    (hk : env.schema.kindOf? n = some .interface) (hne : (C01Abs.inlConds sub).isEmpty = false)
+    (hobj : ∀ c ∈ C01Abs.inlConds sub, env.schema.kindOf? c = some .object)
+    (rt : String) (hrt : rt ∈ env.schema.possibleTypes n) (hrn : rt ≠ n) :
+    (rt ∈ C01Abs.tvOf env (C01Abs.relatedOf env C n sub) n ↔ rt ∉ C01Abs.inlConds sub) ∧
+    (∀ c ∈ Util.sortedSet (C01Abs.inlConds sub), (rt ∈ C01Abs.tvOf env (C01Abs.relatedOf env C n sub) c ↔ rt = c)) :=
+  C01Abs.interface_literals_partition env C n sub hk hne hobj rt hrt hrn
+
+/-- … and at a union position: one variant per member `m`, with literal `["m"]` -/
+theorem union_position_partition (env : ResultTypes.Env) (C n : String) (sub : List Selection) (t : TypeDef)
+    (hg : env.schema.get? n = some t) (hk : t.kind = .union) (hobj : ∀ m ∈ t.members, env.schema.isAbstract m = false) :
+    C01Abs.relatedOf env C n sub = t.members.map (fun m => (C ++ m, m)) ∧
+    ∀ m ∈ t.members, C01Abs.tvOf env (C01Abs.relatedOf env C n sub) m = [m] :=
+  C01Abs.union_literals env C n sub t hg hk hobj
+
+/-- non-vacuity of both: the interface position `node { id ... on User {..} ... on Post {..} }` and the union position `search`
+    of `C01Abs.axSel` -/
+example : C01Abs.axEnv.schema.kindOf? "Node" = some .interface
+    ∧ C01Abs.inlConds [.inline (some "User") [] 3 [], .inline (some "Post") [] 5 []] = ["User", "Post"]
+    ∧ C01Abs.axEnv.schema.possibleTypes "Node" = ["User", "Post"]
+    ∧ (C01Abs.axEnv.schema.get? "SearchResult").map (·.members) = some ["User", "Post"] := by decide +kernel
+
+/-! ### The plain tier on the whole pipeline, proved (Proofs/C01Bridge.lean, C01BridgePlain.lean)
+
+`PlainInput inp` (decidable, Proofs/C01BridgePlain.lean): no fragment definitions; `schemaOK` (type names pairwise
+distinct, no enum called `str`/`int`/`float`/`bool`/`Any`, built-in scalar names not redefined); every operation has a
+name and a root type, no `@mixin`, satisfies `PlainOK` for its root class in the empty generator state, generates no
+class called `BaseModel`, and meets the two fuel bounds `gfuel sel ≤ 100000` (generator) and `vneed … + 1 ≤ execFuel`
+(validation).  `ValidInput` is kept as a hypothesis for uniformity; `PlainInput` alone implies what the proof uses.
+In this region the generator inserts no automatic `__typename` (the marks stay empty for every operation), the document is
+sent as written, and `claimB` holds for EVERY operation index and EVERY duplicate-free payload. -/
+
+theorem C01_partial_plain : ∀ (inp : Input) (k : Nat) (j : J),
+    ValidInput inp → PlainInput inp → nodupKeys j = true → claimB inp k j = true :=
+  fun inp k j _ hp hj => claimB_plain inp k j hp hj
+
+/-- non-vacuity (`plInp`, Proofs/C01BridgePlain.lean): two operations over the schema of Proofs/C01Plain.lean; the answer of
+    the first has a nested list with a `null` element, aliases, an enum leaf and an absent conditional field -/
+example : ValidInput plInp ∧ PlainInput plInp ∧ nodupKeys C01Plain.exResp = true
+    ∧ Exec.respOK plInp.env.schema [] execFuel "Query" C01Plain.exSel C01Plain.exResp = true
+    ∧ claimB plInp 0 C01Plain.exResp = true := plInp_nonvacuous
+
+/-! ### The abstract-positions tier on the whole pipeline, proved (Proofs/C01BridgeAbs.lean)
+
+`AbsInput inp` (decidable): no fragment definitions; `schemaOK`; `NoCondTypename` (no `__typename @skip/@include` — the trigger of
+the new finding; implied for operations by `AbsOK`, named so that it can be replaced by `Supported_01` once the trigger exists);
+the operations IN ORDER with the marks threaded as the package generator does (`absOpsOK`): each has a name and a root type, no
+`@mixin`, satisfies `C01Abs.AbsOK` in the generator state left by its predecessors, `NoShadowedImport`, and the fuel bounds
+(`agfuel ≤ 100000` generator, `agfuel ≤ execFuel` executor, `avneed + 4 ≤ execFuel` validation).  The answer is judged against the
+document AS SENT after operations `0..k` (the accumulated `__typename` marks).  `PlainInput ⊆ AbsInput` in spirit (the plain tier
+is the marks-free special case); both theorems are kept. -/
+
+theorem C01_partial_abstract : ∀ (inp : Input) (k : Nat) (j : J),
+    ValidInput inp → AbsInput inp → nodupKeys j = true → claimB inp k j = true :=
+  fun inp k j _ hp hj => claimB_abs inp k j hp hj
+
+/-- non-vacuity (`abInp`, Proofs/C01BridgeAbs.lean): two operations, both with abstract positions (interface with inline
+    fragments, list of union, interface below an object below an interface); the marks accumulate over the operations; the answer
+    of the first is conformant for the document as sent -/
+example : ValidInput abInp ∧ AbsInput abInp ∧ nodupKeys C01Abs.axResp = true
+    ∧ marksAfter ((run abInp).ops.take 1) = [2, 7] ∧ marksAfter ((run abInp).ops.take 2) = [2, 7, 21, 24]
+    ∧ Exec.respOK abInp.env.schema [] execFuel "Query" (Marks.applySels [2, 7] C01Abs.axSel) C01Abs.axResp = true
+    ∧ claimB abInp 0 C01Abs.axResp = true := abInp_nonvacuous
+
+/-! ### Named fragments used as mixins, proved (Proofs/C01Mix*.lean, C01BridgeMix.lean)
+
+The plain tier extended by spreads `...F` of a fragment defined on exactly the (object) type of the selection set and free of
+inline fragments: the generator does not unpack such a fragment, the class of the selection set INHERITS from the class
+generated for `F` in the fragments module and declares only its own fields; fragments spread fragments, and their composite
+fields spread fragments again, to any depth.  `mixin_fragments_roundtrip` (class level): generation returns `C01Mix.mClass`
+(bases = the spread fragments, sorted), nothing is unpacked, no mark is added; every answer a conformant executor gives — it
+resolves the spreads with the fragment definitions — is accepted by the class, whose fields pydantic gathers along the
+inheritance chain, and dumped back.  `C01_partial_mixin`: the same on `claimB` (all operations, the fragments module =
+classes of ALL fragment definitions, `pydEnvOf`).  Regions: `C01Mix.MixOK` / `C01Mix.FragsOK`, `MixInput` (decidable; what they
+demand and why: headers of Proofs/C01Mix.lean, C01BridgeMix.lean; notably per class the response keys / Python names of ALL
+field nodes, own and inherited, are pairwise distinct). -/
+
+open Ariadne.C01Mix in
+theorem mixin_fragments_roundtrip (env : ResultTypes.Env) (K : Nat) (hfr : FragsOK env K) (cn tn : String) (sid : Nat)
+    (sel : List Selection) (st : St) (h : MixOK env K cn tn sel = true) (hmarks : st.marks = [])
+    (hnd : ((mClass env cn tn sel).map (·.name)).Nodup)
+    (hfresh : ∀ n ∈ (mClass env cn tn sel).map (·.name), n ∉ st.publicNames) :
+    (∀ fuel, C01Plain.gfuel sel ≤ fuel →
+      ∃ st', parseTypeDefinition env fuel cn tn sid sel false [] [] st = .ok (mClass env cn tn sel, st') ∧
+        st'.marks = [] ∧ st'.unpacked = st.unpacked) ∧
+    (∀ (penv : Pyd.Env), ResultLeaf.EnvAgrees env penv → penv.class? "BaseModel" = none →
+      (∀ c ∈ mClass env cn tn sel, penv.class? c.name = some c) → FragsIn env penv → fragDepth env ≤ penv.clsFuel →
+      ∀ (efuel : Nat), K ≤ efuel →
+      ∀ (j : J), Exec.respOK env.schema env.frags efuel tn sel j = true → nodupKeys j = true →
+      ∀ vfuel, mneed env K tn sel + 1 ≤ vfuel →
+        ∃ v, Pyd.validate penv vfuel (.cls cn) j = .ok v ∧ J.eqv (Pyd.dump v) j = true) := by
+  refine ⟨fun fuel hf => ?_, fun penv ha hbm hcls hF hK efuel hef j hresp hj vfuel hv =>
+    mix_roundtrip env K hfr cn tn sel h penv ha hbm hcls hF hK efuel hef j hresp hj vfuel hv⟩
+  obtain ⟨st', h1, _, h3, h4⟩ := mix_generation env K hfr cn tn sid sel st h hmarks hnd hfresh fuel hf
+  exact ⟨st', h1, h3, h4⟩
+
+theorem C01_partial_mixin : ∀ (inp : Input) (k : Nat) (j : J),
+    ValidInput inp → MixInput inp → nodupKeys j = true → claimB inp k j = true :=
+  fun inp k j _ hp hj => claimB_mix inp k j hp hj
+
+/-- non-vacuity (`mxInp`, Proofs/C01BridgeMix.lean): `fragment UG on User { ...UF friends { ...UF } }`, `fragment UF on User
+    { id name }`, `query Q { me { ...UG } }`, `query R { again: me { ...UF } }` -/
+example : ValidInput mxInp ∧ MixInput mxInp ∧ nodupKeys mxResp = true
+    ∧ (fragModule mxInp.env).map (fun c => (c.name, c.bases)) = [("UF", ["BaseModel"]), ("UG", ["UF"]), ("UGFriends", ["UF"])]
+    ∧ Exec.respOK mxSchema mxInp.env.frags execFuel "Query" [.field none "me" [] 2 [.spread "UG" []]] mxResp = true
+    ∧ claimB mxInp 0 mxResp = true := mxInp_nonvacuous
 
 
 end Ariadne.C01
